@@ -20,15 +20,11 @@ pub use crate::real::disambiguate_short;
 #[cfg(feature = "autocomplete")]
 pub mod complete_run { pub use crate::real::ArgScanner; }
 
-/// completion bookkeeping (src/complete_gen.rs): opaque; the extracted code only moves it around (T8)
+/// completion bookkeeping (src/complete_gen.rs): the real types (the candidate list `comps` is what C14 speaks about)
 #[cfg(feature = "autocomplete")]
-pub mod complete_gen {
-    use vstd::prelude::*;
-    #[verifier::external_body]
-    pub struct Complete { _opaque: () }
-    #[verifier::external_body]
-    pub struct Comp { _opaque: () }
-}
+pub mod complete_gen { pub use crate::real::{Complete, Comp, CompExtra}; }
+#[cfg(feature = "autocomplete")]
+pub mod complete_shell { pub use crate::real::ShellComp; }
 
 pub mod prelude {
     use super::*;
@@ -855,11 +851,11 @@ pub mod spec {
         mid.comp is Some && post == mid && r is Err && r->Err_0 is Completion
     }
 
-    /// completion bookkeeping never appears out of nothing: outside completion mode (`comp` is None) it stays None
+    /// completion mode never starts or ends in the middle of a run: `comp` stays None / stays Some
     #[cfg(not(feature = "autocomplete"))]
     pub open spec fn comp_inert(pre: State, post: State) -> bool { true }
     #[cfg(feature = "autocomplete")]
-    pub open spec fn comp_inert(pre: State, post: State) -> bool { pre.comp is None ==> post.comp is None }
+    pub open spec fn comp_inert(pre: State, post: State) -> bool { (pre.comp is None) == (post.comp is None) }
 
     impl State {
         /// i is the first available item of the scope
@@ -1053,6 +1049,26 @@ pub mod spec {
     }
     pub open spec fn sh_run(st: ShSt, w: Seq<char>, n: int) -> ShSt decreases n { if n <= 0 { st } else { sh_step(sh_run(st, w, n - 1), w[n - 1]) } }
     pub open spec fn sh_start() -> ShSt { ShSt { in_q: false, esc: false, ok: true, out: Seq::empty() } }
+
+    // ---- completion candidates (src/complete_gen.rs; C14, C20)
+    #[cfg(not(feature = "autocomplete"))]
+    pub open spec fn same_candidates(pre: State, post: State) -> bool { true }
+    /// what a completion hook may do to the state: nothing but append one candidate `c` (only in completion mode)
+    #[cfg(feature = "autocomplete")]
+    pub open spec fn pushes_candidate(pre: State, post: State, c: Comp) -> bool {
+        &&& post.same_but_comp(pre)
+        &&& (pre.comp is None ==> post == pre)
+        &&& (pre.comp matches Some(k) ==> post.comp is Some && post.comp->Some_0.comps@ == k.comps@.push(c)
+                && post.comp->Some_0.output_rev == k.output_rev && post.comp->Some_0.no_pos_ahead == k.no_pos_ahead)
+    }
+    /// the candidate list is the same (always true when completion is not compiled in / not requested)
+    #[cfg(feature = "autocomplete")]
+    pub open spec fn same_candidates(pre: State, post: State) -> bool {
+        pre.comp matches Some(k) ==> post.comp is Some && post.comp->Some_0.comps@ == k.comps@
+    }
+    /// the hook leaves everything as it is
+    #[cfg(feature = "autocomplete")]
+    pub open spec fn pushes_nothing(pre: State, post: State) -> bool { post == pre }
 }
 
 pub mod lemmas {
@@ -2110,7 +2126,8 @@ pub trait Parser<T> {
     open spec fn pwf(&self) -> bool { self.inner.pwf() }
     /// same outcome and state as the inner parser, except that a Missing(..) error forgets which items were missing
     open spec fn rel(&self, pre: State, r: Result<T, Error>, post: State) -> bool {
-        exists|ri: Result<T, Error>, pre2: State, post2: State| #[trigger] self.inner.rel(pre2, ri, post2) && eqc(pre, pre2) && eqc(post2, post) && step(pre2, post2) && match ri {
+        same_candidates(pre, post) // C14: whatever the hidden parser would offer is dropped
+        && exists|ri: Result<T, Error>, pre2: State, post2: State| #[trigger] self.inner.rel(pre2, ri, post2) && eqc(pre, pre2) && eqc(post2, post) && step(pre2, post2) && match ri {
             Ok(v) => r == Ok::<T, Error>(v),
             Err(e) => if e.0 is Missing { r is Err && r->Err_0.0 is Missing && r->Err_0.0->Missing_0@ == Seq::<MissingItem>::empty() } else { r == Err::<T, Error>(e) },
         }
@@ -3390,10 +3407,32 @@ proof {
             final(self).comp == old(other).comp && final(other).comp == old(self).comp,
 //@@ end
 
+//@@ type src/complete_shell.rs | enum ShellComp
+//@@ unit complete_shell.ShellComp tags= derive_copy cfg=autocomplete
+//@@ end
+
+//@@ type src/complete_gen.rs | struct CompExtra
+//@@ unit complete_gen.CompExtra tags= derive_clone cfg=autocomplete
+//@@ end
+
+//@@ type src/complete_gen.rs | enum Comp
+//@@ unit complete_gen.Comp tags= derive_clone cfg=autocomplete
+//@@ end
+
+//@@ type src/complete_gen.rs | struct Complete
+//@@ unit complete_gen.Complete tags= derive_clone cfg=autocomplete
+//@@ end
+
+//@@ fn src/complete_gen.rs | impl Complete | fn swap_comps
+//@@ unit complete_gen.Complete.swap_comps tags=C14,C20 cfg=autocomplete
+//@@ spec
+        ensures
+            final(self).comps@ == old(other)@ && final(other)@ == old(self).comps@, // #only_the_candidate_list_moves
+            final(self).output_rev == old(self).output_rev && final(self).no_pos_ahead == old(self).no_pos_ahead,
+//@@ end
+
 #[cfg(feature = "autocomplete")]
 impl crate::complete_gen::Complete {
-    #[verifier::external_body]
-    pub fn swap_comps(&mut self, other: &mut Vec<crate::complete_gen::Comp>) { unimplemented!() }
     #[verifier::external_body]
     pub fn extend_comps(&mut self, comps: Vec<crate::complete_gen::Comp>) { unimplemented!() }
 }
@@ -3410,12 +3449,81 @@ impl crate::complete_gen::Complete {
 //@@ end
 
 //@@ fn src/args.rs | impl State | fn swap_comps_with
-//@@ unit args.State.swap_comps_with tags=C20
+//@@ unit args.State.swap_comps_with tags=C20,C14
 //@@ spec
         ensures
             final(self).same_but_comp(*old(self)), // #only_comp_touched
             comp_inert(*old(self), *final(self)),
+            old(self).comp is None ==> *final(self) == *old(self) && final(comps)@ == old(comps)@, // #inert_outside_completion_mode
+            old(self).comp matches Some(k) ==> final(self).comp is Some && final(self).comp->Some_0.comps@ == old(comps)@ && final(comps)@ == k.comps@
+                && final(self).comp->Some_0.output_rev == k.output_rev && final(self).comp->Some_0.no_pos_ahead == k.no_pos_ahead, // #candidate_lists_change_places
+//@@ end
+
+// completion hooks (src/complete_gen.rs): real bodies; each appends exactly one candidate built from the declared names
+//@@ fn src/complete_gen.rs | impl State | fn push_flag
+//@@ unit complete_gen.State.push_flag tags=C14,C20 cfg=autocomplete
+//@@ spec
+        ensures
+            first_names(*named) is Err ==> pushes_nothing(*old(self), *final(self)), // #an_item_without_a_name_is_never_offered
             old(self).comp is None ==> *final(self) == *old(self), // #inert_outside_completion_mode
+            old(self).comp is Some && first_names(*named) is Ok ==> exists|c: Comp| #[trigger] pushes_candidate(*old(self), *final(self), c)
+                && c is Flag && c->Flag_name == first_names(*named)->Ok_0 && c->Flag_extra.depth == old(self).path.len() && c->Flag_extra.group is None, // #offers_the_declared_name_at_the_current_command_depth
+//@@ atend
+proof { if old(self).comp is Some && first_names(*named) is Ok { assert(pushes_candidate(*old(self), *self, self.comp->Some_0.comps@.last())); } }
+//@@ end
+
+//@@ fn src/complete_gen.rs | impl State | fn push_argument
+//@@ unit complete_gen.State.push_argument tags=C14,C20 cfg=autocomplete
+//@@ spec
+        ensures
+            first_names(*named) is Err ==> pushes_nothing(*old(self), *final(self)), // #an_item_without_a_name_is_never_offered
+            old(self).comp is None ==> *final(self) == *old(self), // #inert_outside_completion_mode
+            old(self).comp is Some && first_names(*named) is Ok ==> exists|c: Comp| #[trigger] pushes_candidate(*old(self), *final(self), c)
+                && c is Argument && c->Argument_name == first_names(*named)->Ok_0 && c->Argument_metavar == metavar && c->Argument_extra.depth == old(self).path.len(), // #offers_the_declared_name_and_metavariable
+//@@ atend
+proof { if old(self).comp is Some && first_names(*named) is Ok { assert(pushes_candidate(*old(self), *self, self.comp->Some_0.comps@.last())); } }
+//@@ end
+
+//@@ fn src/complete_gen.rs | impl State | fn push_metavar
+//@@ unit complete_gen.State.push_metavar tags=C14,C20 cfg=autocomplete
+//@@ spec
+        ensures
+            old(self).comp is None ==> *final(self) == *old(self), // #inert_outside_completion_mode
+            old(self).comp is Some ==> exists|c: Comp| #[trigger] pushes_candidate(*old(self), *final(self), c)
+                && c is Metavariable && c->Metavariable_meta == meta && c->Metavariable_is_argument == is_argument && c->Metavariable_extra.depth == old(self).path.len(), // #offers_the_metavariable_placeholder
+//@@ atend
+proof { if old(self).comp is Some { assert(pushes_candidate(*old(self), *self, self.comp->Some_0.comps@.last())); } }
+//@@ end
+
+//@@ fn src/complete_gen.rs | impl State | fn push_command
+//@@ unit complete_gen.State.push_command tags=C14,C20 cfg=autocomplete
+//@@ spec
+        ensures
+            old(self).comp is None ==> *final(self) == *old(self), // #inert_outside_completion_mode
+            old(self).comp is Some ==> exists|c: Comp| #[trigger] pushes_candidate(*old(self), *final(self), c)
+                && c is Command && c->Command_name == name && c->Command_short == short && c->Command_extra.depth == old(self).path.len(), // #offers_the_command_name
+//@@ atend
+proof { if old(self).comp is Some { assert(pushes_candidate(*old(self), *self, self.comp->Some_0.comps@.last())); } }
+//@@ end
+
+//@@ fn src/complete_gen.rs | impl State | fn clear_comps
+//@@ unit complete_gen.State.clear_comps tags=C14,C20 cfg=autocomplete
+//@@ spec
+        ensures
+            final(self).same_but_comp(*old(self)), old(self).comp is None ==> *final(self) == *old(self),
+            old(self).comp matches Some(k) ==> final(self).comp is Some && final(self).comp->Some_0.comps@.len() == 0
+                && final(self).comp->Some_0.output_rev == k.output_rev && final(self).comp->Some_0.no_pos_ahead == k.no_pos_ahead, // #drops_every_candidate_collected_so_far
+//@@ end
+
+//@@ fn src/complete_gen.rs | impl State | fn push_pos_sep
+//@@ unit complete_gen.State.push_pos_sep tags=C14,C20 cfg=autocomplete
+//@@ spec
+        ensures
+            old(self).comp is None ==> *final(self) == *old(self), // #inert_outside_completion_mode
+            old(self).comp is Some ==> exists|c: Comp| #[trigger] pushes_candidate(*old(self), *final(self), c)
+                && c is Value && !c->Value_is_argument && c->Value_extra.depth == old(self).path.len(), // #offers_the_separator_as_a_positional_value
+//@@ atend
+proof { if old(self).comp is Some { assert(pushes_candidate(*old(self), *self, self.comp->Some_0.comps@.last())); } }
 //@@ end
 
 // assumed: the completion hooks of src/complete_gen.rs touch nothing but `comp`, and nothing at all outside completion mode
@@ -3423,22 +3531,6 @@ impl crate::complete_gen::Complete {
 impl State {
     #[verifier::external_body]
     pub fn push_with_group(&mut self, group: &Option<String>, comps: &mut Vec<crate::complete_gen::Comp>)
-        ensures final(self).same_but_comp(*old(self)), old(self).comp is None ==> *final(self) == *old(self), old(self).comp is Some ==> final(self).comp is Some,
-    { unimplemented!() }
-    #[verifier::external_body]
-    pub fn push_pos_sep(&mut self)
-        ensures final(self).same_but_comp(*old(self)), old(self).comp is None ==> *final(self) == *old(self), old(self).comp is Some ==> final(self).comp is Some,
-    { unimplemented!() }
-    #[verifier::external_body]
-    pub fn push_metavar(&mut self, meta: &'static str, help: &Option<Doc>, is_argument: bool)
-        ensures final(self).same_but_comp(*old(self)), old(self).comp is None ==> *final(self) == *old(self), old(self).comp is Some ==> final(self).comp is Some,
-    { unimplemented!() }
-    #[verifier::external_body]
-    pub fn push_flag(&mut self, named: &NamedArg)
-        ensures final(self).same_but_comp(*old(self)), old(self).comp is None ==> *final(self) == *old(self), old(self).comp is Some ==> final(self).comp is Some,
-    { unimplemented!() }
-    #[verifier::external_body]
-    pub fn push_argument(&mut self, named: &NamedArg, metavar: &'static str)
         ensures final(self).same_but_comp(*old(self)), old(self).comp is None ==> *final(self) == *old(self), old(self).comp is Some ==> final(self).comp is Some,
     { unimplemented!() }
     #[verifier::external_body]
